@@ -187,6 +187,8 @@ def analyse(hist, plan):
             r = Rec()
             r.id = ids[k]; r.step = st; r.u = st['u'] if st else None; r.resp = m
             r.seq_send, r.t_send = time_of_offset(offs[k]) if k < len(offs) else (0, 0)
+            r.arrived = hist.squid_read_seq(cv.conn, offs[k] + cv.reqs[k].raw_len) if k < len(offs) else None   # (seq, t) at which squid had read the whole request
+            r.seq_last, r.t_last = time_of_offset(offs[k] + cv.reqs[k].raw_len - 1) if k < len(offs) else (0, 0)   # when the last byte of the request was sent
             r.seq_end, r.t_end = end_of(consumed)
             r.contacts = contacts.get(ids[k], [])
             r.conn = cv
